@@ -174,7 +174,7 @@ PROPS = {
                 "(-0.0 -> 0.0; f32 widened exactly); to_f64 on decimals of 1..400 digits with exponents -400..400, exact halfway points between adjacent floats, values around f64::MAX, MIN_POSITIVE "
                 "and the smallest subnormal, zeros, scales beyond the i32 exponent range (2^31 +-40, 3*10^9, 2^40, near i64::MIN/MAX: tiny values must underflow to zero, huge ones overflow to infinity): judged in exact rational arithmetic from the returned bits (sign, 2^-48 relative, one subnormal step, infinity only near/after MAX). "
                 "Thorough adds all 2^32 f32 patterns against an independent exact formula in-process.",
-        "trusted_base": TB_COMMON + ["IEEE-754 behaviour of the float primitives used inside to_f64 (BigUint::to_f64, powi, str::parse): to_f64 is judged per sampled input, not modelled"],
+        "trusted_base": TB_COMMON + ["the three float primitives used inside to_f64 are MODELLED, not verified: BigUint::to_f64 and str::parse::<f64> as round-to-nearest-even of the exact value, f64::powi as compiler-rt repeated squaring with each product rounded to nearest even (F64.rne, proved round-to-nearest in C14_rne_nearest); the correspondence check compares the resulting bit pattern with the real to_f64 on every generated decimal", "the f64 digit estimate inside to_f64 is Lean Float arithmetic (opaque to the kernel): the tolerance theorem is stated for every digit estimate and its premises are observed per input (tags +keeps25 / +estimate-differs in the evidence)"],
         "assumptions": ASSUME_COMMON,
     },
     "C20": {
